@@ -31,6 +31,7 @@ void World::c10_offer(Client &cl, const struct iovec *iov, int cnt) {
 		}
 	}
 	s.cur_P = P; s.cur_F = F;
+	dbg("c10 offer c%d: %d buffers, first %zu, gathered %zu = owed %zu + new %zu (owed known: %d, %zu alternatives)", cl.idx, cnt, first_len, G.size(), P.size(), F.size(), (int)s.owed_valid, s.owed.size());
 	if (!F.empty()) {
 		s.frames.push_back(F); s.generated++;
 		probe("c10_frame_offered");
@@ -66,7 +67,7 @@ void World::c10_accept(Client &cl, const char *p, size_t n) {
 	for (size_t k = 0; k < n; k++) {
 		unsigned char b = (unsigned char)p[k];
 		std::vector<std::pair<size_t, size_t>> next;
-		auto add = [&](size_t i, size_t off) { for (auto &x : next) if (x.first == i && x.second == off) return; if (next.size() < 64) next.emplace_back(i, off); };
+		auto add = [&](size_t i, size_t off) { for (auto &x : next) if (x.first == i && x.second == off) return; next.emplace_back(i, off); };   // (no cap: after a long stall hundreds of refused frames share their first bytes, and the one that is finally sent is the last of them)
 		for (auto &st : s.states) {
 			size_t i = st.first, off = st.second;
 			if (off > 0) {   // inside frame i
